@@ -497,6 +497,7 @@ class CallSequences(Contract):
         reg_before = {k: list(getattr(pb, k)) for k in ("tasks", "workers", "constraints", "indicators", "objectives")}
         results = []
         stacks = []
+        first_solver_stack = None
         for call in case["seq"]:
             if call == "initialize":
                 solver.initialize()
@@ -506,6 +507,7 @@ class CallSequences(Contract):
                 results.append(None)
             elif call == "second_solver":
                 solver.initialize()
+                first_solver_stack = list(asserted(solver))
                 s2 = ps.SchedulingSolver(problem=pb, **kw)
                 s2.initialize()
                 results.append(None)
@@ -515,7 +517,7 @@ class CallSequences(Contract):
             stacks.append(list(asserted(solver)) if solver._solver is not None else None)
             if P.symbolic and call == "solve" and case["optimizer"] == "incremental" and case["obj"] != "none":
                 break
-        return dict(pb=pb, solver=solver, results=results, stacks=stacks, reg_before=reg_before)
+        return dict(pb=pb, solver=solver, results=results, stacks=stacks, reg_before=reg_before, first_solver_stack=first_solver_stack)
 
     def clauses(self, P, ctx, case):
         out = []
@@ -528,7 +530,7 @@ class CallSequences(Contract):
                 out.append(Clause("native[second solve agrees with the first on feasibility]", z3.BoolVal(bool(sols[0]) == bool(sols[1])), props=("C13",), kind="sound"))
             return out
         G = solver._solver
-        first = next(s for s in stacks if s is not None)
+        first = ctx["first_solver_stack"] if ctx.get("first_solver_stack") is not None else next(s for s in stacks if s is not None)
         for i, s in enumerate(stacks):
             if s is None:
                 continue
@@ -623,3 +625,40 @@ class ConfigAgreementNative(Contract):
             opts = {d[0] + d[1] for c, k, d in res if k == "solution" and (c["optimizer"] == "incremental" or c["optimize_priority"] == "weight")}
             out.append(Clause("native[weighted-sum configurations reach the same optimum]", z3.BoolVal(len(opts) <= 1), props=("C15",), kind="equals", bounded=self.bounded, note=str(sorted(opts))))
         return out
+
+
+def _callseq_native_search(case, params, ob):
+    """real library: a feasible problem (with the case's objectives) solved by a first solver, then by a second
+    solver object on the same problem, then again by the first: the verdicts must agree"""
+    import io, contextlib, warnings
+    from psvc import runner
+
+    ps = runner.native_ps()
+    with contextlib.redirect_stdout(io.StringIO()), warnings.catch_warnings():
+        warnings.simplefilter("ignore")
+        pb = ps.SchedulingProblem(name="pb", horizon=8)
+        t1 = ps.FixedDurationTask(name="t1", duration=3)
+        t2 = ps.VariableDurationTask(name="t2", optional=True)
+        w = ps.Worker(name="w")
+        t1.add_required_resource(w)
+        t2.add_required_resource(w)
+        if case["obj"] in ("single", "multi"):
+            ps.ObjectiveMinimizeMakespan()
+        if case["obj"] == "multi":
+            ps.ObjectiveMinimizeFlowtime()
+        kw = dict(optimizer=case["optimizer"])
+        if case["optimizer"] == "optimize":
+            kw["optimize_priority"] = "lex"
+        verdicts = []
+        try:
+            s1 = ps.SchedulingSolver(problem=pb, **kw)
+            verdicts.append(bool(s1.solve()))
+            s2 = ps.SchedulingSolver(problem=pb, **kw)
+            verdicts.append(bool(s2.solve()))
+            verdicts.append(bool(s1.solve()))
+        except Exception as e:  # noqa
+            return {"confirmed": True, "observation": {"verdicts": verdicts, "exception": f"{type(e).__name__}: {e}"}}
+    return {"confirmed": len(set(verdicts)) > 1, "observation": {"verdicts_first_second_first": verdicts}}
+
+
+CallSequences.native_search = staticmethod(_callseq_native_search)
